@@ -69,6 +69,8 @@ def post_evaluate(hk, self, a, k, res, pv):
         total *= len(pp)
     site = type(self).__name__
     if len(res) != total:
+        if not STATE['judge']:
+            return False
         ctx.fail('meval/grid-size/%s' % site, '%s.evaluate returned %d points for sample sizes %r (start=%r stop=%r)'
                  % (site, len(res), ss, start, stop))
         return True
@@ -101,6 +103,10 @@ def post_evaluate(hk, self, a, k, res, pv):
                     skip = True
         if skip:
             continue
+        if not STATE['judge']:
+            pts_out.append(res[f])
+            prm_out.append(prm)
+            continue
         exact = shape.point(prm)
         if S is None:
             S = max(1.0, max(abs(float(c)) for P in shape.net.values() for c in (P[:-1] if shape.rational else P)) /
@@ -122,6 +128,7 @@ def post_evaluate(hk, self, a, k, res, pv):
 def install(ctx, judge=True):
     from geomdl import evaluators
     STATE['ctx'] = ctx
+    STATE['judge'] = judge
 
     def make_post():
         def post(hk, self, a, k, res, pv):
